@@ -4,37 +4,52 @@
 (* the environment's moves against Subscription.tla and emits, for every   *)
 (* script, every behaviour the specification allows as one vector          *)
 (*                                                                         *)
-(*   [mode, pre, script = <<[m, c, o, i, s]>>, leak, dev]                  *)
+(*   [mode, pre, script = <<[m, c, o, i, s]>>, leak, who, dev]             *)
 (*                                                                         *)
-(*   m  move    "snd" the source sends an event of class c                 *)
+(*   m  move    "snd" the source sends an event of class c (class "slow":  *)
+(*                    the event's resolver parks until it is released)     *)
 (*              "cls" the source closes its channel                        *)
 (*              "rcv" the consumer receives from the result channel        *)
-(*              "cancel" the context is cancelled                          *)
+(*              "cancel" the context is cancelled (also while resolvers    *)
+(*                    are parked)                                          *)
 (*              "stall" the consumer stops reading for ever                *)
+(*              "release" the parked resolver of the oldest parked event   *)
+(*                    (number i) returns                                   *)
 (*   o  outcome snd: "acc" (the forwarder took it, it is event number i)   *)
 (*                   "ref" (the forwarder is gone, nobody takes it)        *)
 (*              rcv: "val" (result of event i, class c, response shape s)  *)
 (*                   "closed"                                              *)
 (*   pre        the context was cancelled before Subscribe was called      *)
-(*   leak       observation after the environment stopped: "na" (context   *)
-(*              not cancelled: a parked forwarder is legitimate), "no"     *)
-(*              (cancelled: the forwarder goroutine must be gone), "yes"   *)
-(*              (cancelled and the forwarder is blocked in its send for    *)
-(*              ever: only under deviation dev = D_C15_send_ignores_ctx)   *)
+(*   leak, who  observation after the environment stopped, about EVERY     *)
+(*              process started for the subscription (the forwarder and    *)
+(*              all executors):                                            *)
+(*              "na"  the context is not cancelled (a parked forwarder is  *)
+(*                    legitimate) or the environment still holds a parked  *)
+(*                    resolver;                                            *)
+(*              "no"  cancelled, nothing held: the forwarder and every     *)
+(*                    executor must be gone;                               *)
+(*              "yes" cancelled, nothing held, and a process is blocked    *)
+(*                    for ever: who = "fwd" the forwarder in its send      *)
+(*                    (only under deviation D_C15_send_ignores_ctx), who = *)
+(*                    "exec" the forwarder is gone and an executor is      *)
+(*                    blocked in its hand-off send (only under deviation   *)
+(*                    D_C15_handoff_unbuffered = Cap 0)                    *)
 (*                                                                         *)
-(* The forwarder's own steps (FwdInternal) are interleaved freely but are  *)
-(* not part of the script, so one script can have several legal outcome    *)
-(* sequences (after cancellation the forwarder's select may go either      *)
-(* way).  The harness groups the vectors by script shape (mode, pre,       *)
-(* moves) and accepts an observation iff it equals one of the emitted      *)
+(* The steps of the forwarder and of the executors (Tau) are interleaved   *)
+(* freely but are not part of the script, so one script can have several   *)
+(* legal outcome sequences (after cancellation the forwarder's selects may *)
+(* go either way).  The harness groups the vectors by script shape (mode,  *)
+(* pre, moves) and accepts an observation iff it equals one of the emitted *)
 (* behaviours of that shape.  All bounds are on the SHAPE (number of moves,*)
 (* number of snd moves), never on outcomes, so the set of legal outcomes   *)
 (* of every emitted shape is complete.                                     *)
 (*                                                                         *)
-(* Vectors are emitted in states where the forwarder is at rest, i.e. what *)
-(* is observable once the environment stops.  The as-is design (plain      *)
-(* send) is at rest in additional states (send pending, context cancelled):*)
-(* those are emitted with dev set, leak = "yes".                           *)
+(* Vectors are emitted in states where every process is at rest, i.e. what *)
+(* is observable once the environment stops.  The generator runs the       *)
+(* intended design (Cap >= 1).  The as-is designs are at rest in           *)
+(* additional states: plain send (send pending, context cancelled), and    *)
+(* Cap = 0 (an executor in its hand-off send that the forwarder no longer  *)
+(* waits for): those are emitted with dev set, leak = "yes".               *)
 (***************************************************************************)
 EXTENDS Subscription, C15Bind, Json
 
@@ -55,9 +70,14 @@ MCInit ==
   /\ sent = <<>> /\ srcClosed = FALSE
   /\ fpc = "start" /\ cur = None /\ last = FALSE
   /\ delivered = <<>> /\ outClosed = FALSE /\ cstop = FALSE /\ seenClosed = FALSE
+  /\ epc = [i \in Evs |-> "idle"] /\ hbuf = [i \in Evs |-> FALSE]
   /\ script = <<>>
 
-Tau == FwdInternal /\ UNCHANGED <<script, pre>>
+Tau == (FwdInternal \/ \E i \in Evs : ExecStep(i)) /\ UNCHANGED <<script, pre>>
+
+MinOf(S) == CHOOSE x \in S : \A y \in S : x <= y
+\* started executors whose resolver has not been released yet (parked, or about to park)
+Held == {i \in Evs : epc[i] = "parked" \/ (epc[i] = "run" /\ Parks(sent[i]))}
 
 EnvMove ==
   /\ Len(script) < K
@@ -71,21 +91,47 @@ EnvMove ==
      \/ Deliver /\ Log(Move("rcv", cur.c, "val", cur.i))
      \/ /\ outClosed /\ ~cstop
         /\ seenClosed' = TRUE
-        /\ UNCHANGED <<mode, cancelled, sent, srcClosed, fpc, cur, last, delivered, outClosed, cstop>>
+        /\ UNCHANGED <<mode, cancelled, sent, srcClosed, fpc, cur, last, delivered, outClosed, cstop, xvars>>
         /\ Log(Move("rcv", "-", "closed", 0))
      \/ Cancel /\ Log(Move("cancel", "-", "-", 0))
      \/ ConsumerStop /\ Log(Move("stall", "-", "-", 0))
+     \* the environment sees which resolvers are parked; it lets them return in event order (it waits
+     \* for the oldest resolver it has not released yet to park)
+     \/ Held # {} /\ Release(MinOf(Held)) /\ Log(Move("release", "-", "-", MinOf(Held)))
 
-MCNext == Tau \/ EnvMove
+\* Reduction (keeps the set of emitted vectors, shrinks the interleavings): FwdSetup, FwdMap, FwdClose
+\* and ExecRun are always enabled in their control state, their effect does not depend on anything the
+\* environment or another process changes, they disable no move and no step, and a state in which
+\* one of them is enabled is not a rest state (nothing is emitted there).  Every behaviour is
+\* therefore equivalent (same script, same outcomes, same rest states) to one in which they are
+\* taken as soon as they are enabled; only those are generated.  (ExecSend is NOT treated this way:
+\* the state before it is the rest state of the Cap = 0 design.)
+Eager == fpc \in {"start", "map", "exit"} \/ \E i \in Evs : epc[i] = "run"
+TauEager == (FwdSetup \/ FwdMap \/ FwdClose \/ \E i \in Evs : ExecRun(i)) /\ UNCHANGED <<script, pre>>
+
+MCNext == IF Eager THEN TauEager ELSE (Tau \/ EnvMove)
 MCSpec == MCInit /\ [][MCNext]_mcvars
+\* the unreduced generator (thorough tier cross-check: must emit the same vectors)
+MCNextFull == Tau \/ EnvMove
+MCSpecFull == MCInit /\ [][MCNextFull]_mcvars
 
-Vec(dev, leak) == [mode |-> mode, pre |-> pre, n |-> Len(script), script |-> script, leak |-> leak, dev |-> dev]
+Vec(dev, leak, who) ==
+  [mode |-> mode, pre |-> pre, n |-> Len(script), script |-> script, leak |-> leak, who |-> who, dev |-> dev]
+
+\* every process is at rest under forwarder design d and hand-off capacity cap
+Rest(d, cap) == ~FwdCanStep(d) /\ \A i \in Evs : ~ExecCanStepC(i, cap)
+\* the observation is asked for: the context is cancelled and the environment holds no resolver
+Asked == cancelled /\ Parked = {}
 
 Emit ==
-  /\ ~FwdCanStep("intended") =>
-        PrintT(<<"VEC", ToJson(Vec("-", IF cancelled THEN "no" ELSE "na"))>>)
-  /\ (~FwdCanStep("asis") /\ FwdCanStep("intended")) =>
-        PrintT(<<"VEC", ToJson(Vec("D_C15_send_ignores_ctx", "yes"))>>)
+  /\ Rest("intended", 1) =>
+        PrintT(<<"VEC", ToJson(Vec("-", IF Asked THEN "no" ELSE "na", "-"))>>)
+  /\ (Rest("asis", 1) /\ ~Rest("intended", 1) /\ Asked) =>
+        PrintT(<<"VEC", ToJson(Vec("D_C15_send_ignores_ctx", "yes", "fwd"))>>)
+  \* (a rest state of the Cap = 0 design is met here before the stuck executors take the step that
+  \* only Cap >= 1 allows them; no executor has put a result into a buffer nobody reads)
+  /\ (Rest("intended", 0) /\ ~Rest("intended", 1) /\ Asked /\ \A i \in Evs : ~hbuf[i]) =>
+        PrintT(<<"VEC", ToJson(Vec("D_C15_handoff_unbuffered", "yes", "exec"))>>)
 
 \* in-model theorems about the oracle, checked on every generated state
 Theorems ==
@@ -96,6 +142,14 @@ Theorems ==
      IN /\ Len(acc) = Len(sent) /\ \A j \in 1..Len(acc) : acc[j].c = sent[j] /\ acc[j].i = j
         /\ Len(val) = Len(delivered)
         /\ \A j \in 1..Len(val) : [i |-> val[j].i, c |-> val[j].c] = delivered[j]
-  \* the deviation only ever adds the blocked-for-ever observation
-  /\ (~FwdCanStep("asis") /\ FwdCanStep("intended")) => (fpc = "send" /\ cancelled)
+  \* a rest state of the intended design in which the observation is asked for shows no process at all
+  /\ (Rest("intended", 1) /\ Asked) => AllGone
+  \* the deviations only ever add the blocked-for-ever observation
+  /\ (Rest("asis", 1) /\ ~Rest("intended", 1)) => (fpc = "send" /\ cancelled)
+  /\ (Rest("intended", 0) /\ ~Rest("intended", 1)) =>
+        (cancelled /\ fpc = "done" /\ \E i \in Evs : epc[i] = "send")
+  \* releases happen in event order and only for slow events that were taken
+  /\ LET rel == SelectSeq(script, LAMBDA x : x.m = "release")
+     IN \A j \in 1..Len(rel) : /\ rel[j].i \in 1..Len(sent) /\ Parks(sent[rel[j].i])
+                               /\ \A k \in 1..(j - 1) : rel[k].i < rel[j].i
 =============================================================================
